@@ -4,9 +4,11 @@ import GqlgenVerif.Lemmas.Exec
 namespace GqlgenVerif
 open Spec
 
-/-- two oracles agree on every path at or below `q` -/
+/-- two oracles agree on every path at or below `q` (for a plain struct field at `r` that is the value
+    stored in its enclosing object, `plain r.dropLast`) -/
 def AgreeUnder (q : Path) (o o' : Oracle) : Prop :=
-  ∀ r, q <+: r → o.res r = o'.res r ∧ ∀ d, o.dir r d = o'.dir r d
+  ∀ r, q <+: r → o.res r = o'.res r ∧ (∀ d, o.dir r d = o'.dir r d) ∧
+    ∀ n, o.plain r.dropLast n = o'.plain r.dropLast n
 
 theorem AgreeUnder.snoc {q : Path} {o o' : Oracle} (h : AgreeUnder q o o') (a : Seg) :
     AgreeUnder (q ++ [a]) o o' :=
@@ -54,7 +56,12 @@ theorem field_local (o o' : Oracle) (fi : FInfo) : ∀ (sh : Shape) (p : Path), 
     Spec.completeField o fi sh p = Spec.completeField o' fi sh p
   | sh, p, h => by
     have hp := h p (List.prefix_refl p)
-    simp only [Spec.completeField, runDirs_local o o' p hp.2, hp.1, value_local o o' sh _ p h]
+    have ho : o.outcome fi p = o'.outcome fi p := by
+      unfold Oracle.outcome
+      split
+      · exact hp.2.2 fi.name
+      · exact hp.1
+    simp only [Spec.completeField, runDirs_local o o' p hp.2.1, ho, value_local o o' sh _ p h]
 
 theorem elems_local (o o' : Oracle) : ∀ (elem : Shape) (ec : Bool) (vs : List V) (p : Path) (i : Nat),
     AgreeUnder p o o' → Spec.completeElems o elem ec vs p i = Spec.completeElems o' elem ec vs p i
